@@ -22,8 +22,9 @@ anywhere in src/), so there is nothing to relate.
 
 State of the tree: repo commits 0beac74 (sorting by UTF-8 octets), eee8133 (`capabilities()` removes repeated features),
 03b8892 (form field values hashed exactly as written) and 032336b (caps recomputed wherever the stored presence is
-emitted or handed out) are in; the model follows them and no defect theorem is left.  The former witnesses stay in the
-harness corpus and as examples below.
+emitted or handed out) are in and the model follows them; the former witnesses stay in the harness corpus and as examples
+below.  Also in: "caps hash includes an empty but non-null form value, as the form is written" (0e1114e), after
+`QXmppDataForm::toXml` started to write such a value as `<value/>`; no defect theorem is left.
 -/
 namespace Qx.C20
 open List
@@ -164,7 +165,7 @@ theorem xep_string_ambiguous_across_sections :
 
 /-- **The C++ string is the XEP string** for every info set whose form is in the XEP's domain (unique `var`s, a string
 FORM_TYPE with one value) — any characters, any number of identities, features, fields, values, any field kinds
-(strings, lists, booleans, value-less fields). -/
+(strings incl. the empty one, lists, booleans, value-less fields). -/
 theorem code_eq_spec (i : Info) (hx : XepForm i.form) : verStringCode i = verStringSpec i := by
   simp only [verStringCode, verStringSpec, sortedIdentitiesCode, sortedFeaturesCode]
   rw [formStr_agree hx]
@@ -189,8 +190,11 @@ def witnessUtf16 : Info := { ids := [idSmile, idTilde], feats := [], form := non
 /-- FORM_TYPE `urn:t` and one boolean field `b` = true -/
 def witnessBool : Info :=
   { ids := [], feats := [], form := some [⟨formTypeKey, .text "urn:t".toList⟩, ⟨['b'], .bool true⟩] }
-/-- FORM_TYPE `urn:t` and one text field `b` without a value -/
+/-- FORM_TYPE `urn:t` and one text field `b` without a value (null string) -/
 def witnessValueless : Info :=
+  { ids := [], feats := [], form := some [⟨formTypeKey, .text "urn:t".toList⟩, ⟨['b'], .null⟩] }
+/-- FORM_TYPE `urn:t` and one text field `b` whose value is the empty (non-null) string, written as `<value/>` -/
+def witnessEmptyValue : Info :=
   { ids := [], feats := [], form := some [⟨formTypeKey, .text "urn:t".toList⟩, ⟨['b'], .text []⟩] }
 
 /-- the former collation witness (fixed by 0beac74): U+FF5E (`EF BD 9E`) now comes before U+1F600 (`F0 9F 98 80`)
@@ -205,6 +209,9 @@ example : verStringCode witnessBool = "urn:t<b<1<".toList ∧ verStringSpec witn
     verStringCode { witnessValueless with form := some [⟨formTypeKey, .text "urn:t".toList⟩, ⟨['b'], .list []⟩] } ≠
     verStringCode { witnessValueless with form := some [⟨formTypeKey, .text "urn:t".toList⟩, ⟨['b'], .list [[]]⟩] } := by
   decide
+
+/-- the former empty-value witness (fixed by 0e1114e): `<value/>` is written and hashed, `urn:t<b<<` -/
+example : verStringCode witnessEmptyValue = "urn:t<b<<".toList ∧ verStringSpec witnessEmptyValue = "urn:t<b<<".toList := by decide
 
 /-! ## advertised = answered -/
 
